@@ -33,7 +33,7 @@ ASSUMPTIONS = [
     "scripted pilots are drawn from each station's allowable set",
 ]
 
-RANK = {"Unplug": 0, "Plugin": 1, "Recompute": 2}
+RANK = {"Unplug": 0, "Plugin": 1, "Recompute": 2, "": 3}
 
 
 def make_observer(calls):
